@@ -49,6 +49,9 @@ Proof. reflexivity. Qed.
    ID of MaxInt64 is accepted and the next generated ID is 2^63 - still unique and a user ID, `few_rows` accounts for it *)
 Lemma explicit_ids_bounded_by_validation : c04_max_record_id = 9223372036854775807.
 Proof. reflexivity. Qed.
+(* appRecordsType.validEvent refuses a singleton create whenever a record - active or not - sits at the singleton's ID *)
+Lemma singleton_slot_guarded : c04_singleton_slot_guard = true.
+Proof. reflexivity. Qed.
 Lemma update_on_sync_guarded : c04_update_on_sync_guarded = true.
 Proof. reflexivity. Qed.
 
@@ -180,6 +183,15 @@ Proof.
   intros ND. vm_compute in ND. inversion ND as [|? ? NI _]. apply NI. left. reflexivity.
 Qed.
 
+(* singleton IDs are predefined, not generated: what keeps them unique is the slot guard - an accepted event never
+   creates a singleton whose registry ID is already the ID of a created record of the workspace (deactivated or not);
+   so a singleton ID is given to at most one create row per workspace *)
+Theorem singleton_created_once :
+  forall h ws ev w' ev' rep,
+  step_event (run st_init h ws) ev = (w', Accepted ev' rep) ->
+  forall r, In r (e_creates ev) -> r_single r <> 0 -> ~ In (r_single r) (w_recs (run st_init h ws)).
+Proof. intros h ws ev w' ev' rep. exact (singleton_slot_proved _ _ _ ev w' ev' rep singleton_slot_guarded). Qed.
+
 (* recovery: the rebuilt generator is above every ID in the log of its workspace, never below FirstUserRecordID *)
 Theorem recovery_dominates_log :
   forall h ws, few_rows h -> singles_ok h ->
@@ -210,7 +222,10 @@ Theorem model_traces_satisfy_the_oracle :
   forall h, bounded h -> singles_ok h -> explicit_apart h ->
   c04_sync_prepass = true \/ explicit_free h ->
   satisfies (model_trace st_init h) = true.
-Proof. intros h HB HS. exact (model_satisfies_proved _ _ h HB HS (or_introl arg_pass_syncs) (or_introl plans_shared)). Qed.
+Proof.
+  intros h HB HS HX HP.
+  exact (model_satisfies_proved _ _ h HB HS (or_introl arg_pass_syncs) (or_introl plans_shared) HX HP singleton_slot_guarded).
+Qed.
 
 (* ================= 5. why the repairs were needed (model variants selected by explicit flags) ================= *)
 (* F12: with two independent plans a CUD reference to a raw ID of the argument stays raw; the statement of
@@ -316,6 +331,17 @@ Example max_record_id_nonvacuous :
   /\ snd (step_event (run st_init h 1) ev) = Accepted (mkEv false [] [mkRow 9223372036854775808 0 [0; 0] 0] []) [(1, 9223372036854775808)].
 Proof. vm_compute. repeat split. Qed.
 
+Example singleton_once_nonvacuous :
+  (* create the singleton, touch it by an update (a deactivation is an update), create it again: refused;
+     in another workspace the same ID is free *)
+  let h := [IEvent 1 (mkEv false [] [mkRow 1 0 [0; 0] 65538] []); IEvent 1 (mkEv false [] [] [mkRow 65538 0 [0; 0] 0])] in
+  let again := mkEv false [] [mkRow 1 0 [0; 0] 65538; mkRow 2 0 [1; 0] 0] [] in
+  w_recs (run st_init h 1) = [65538] /\ valid again = true
+  /\ snd (step_event (run st_init h 1) again) = Rejected
+  /\ snd (step_event (run st_init h 2) again)
+     = Accepted (mkEv false [] [mkRow 65538 0 [0; 0] 65538; mkRow 200001 0 [65538; 0] 0] []) [(2, 200001)].
+Proof. vm_compute. repeat split. Qed.
+
 Example recovery_nonvacuous :
   (* an explicit argument ID of a synced event: the live generator and the recovered one agree (F41 repaired) *)
   let h := [IEvent 1 (mkEv true [mkRow 200001 0 [0; 0] 0] [] [])] in
@@ -347,6 +373,7 @@ Print Assumptions stored_ids_distinct_without_prepass_refuted.
 Print Assumptions log_ids_distinct.
 Print Assumptions log_ids_distinct_refuted_reused_explicit_id.
 Print Assumptions log_ids_distinct_refuted_explicit_singleton_id.
+Print Assumptions singleton_created_once.
 Print Assumptions recovery_dominates_log.
 Print Assumptions substitution_consistent.
 Print Assumptions model_traces_satisfy_the_oracle.
